@@ -6,8 +6,9 @@
     ConvertCoin / ConvertERC20, a signed Ethereum transaction to the token followed
     by the PostTxProcessing hook, the bank MsgSend wrapper, the IBC receive / ack /
     timeout callbacks, toggle, params) against the token oracle [tk];
-    [cf = impl] is the pinned tree, [cf = spec] what the property demands
-    (no log-driven mint for externally owned pairs; "transfer returned false" is an error).
+    [cf = impl] is /repo as it is (after the "fix:" commit 1c369cb), [cf = spec] what the
+    property demands (no log-driven mint for externally owned pairs), [cf = pre_fix] the
+    tree before 1c369cb ("transfer returned false" was treated as success by the wrapper).
     [HT] is the honest token (OpenZeppelin ledger with minter/burner role). *)
 From Coq Require Import ZArith List.
 From stdpp Require Import gmap.
@@ -94,8 +95,8 @@ Theorem C10_keeper_convert_erc20_exact_or_error :
 Proof. exact @convert_erc20_spec. Qed.
 Print Assumptions C10_keeper_convert_erc20_exact_or_error.
 
-(** the bank MsgSend wrapper (semantics in which "transfer returned false" is an
-    error): failure without effect, or: plain bank send when conversion is off;
+(** the bank MsgSend wrapper (every semantics in which "transfer returned false" is an
+    error: [impl] and [spec]): failure without effect, or: plain bank send when conversion is off;
     otherwise an exact conversion of everything spendable followed by a token
     transfer that the token reports as x received by the recipient; bank side
     otherwise untouched *)
@@ -113,6 +114,32 @@ Theorem C10_failed_operation_no_effect :
     step tk cf s o = (s', r) -> r <> OK -> s' = s.
 Proof. exact @failed_step_no_effect. Qed.
 Print Assumptions C10_failed_operation_no_effect.
+
+(** honest token: BOTH sides of a successful message conversion: exactly x leaves
+    the sender's one representation and reaches the receiver's other one *)
+Theorem C10_honest_convert_coin_both_sides :
+  forall (s : st ledger) (a b : N) (x : Z) (s' : st ledger),
+    msg_convert_coin HT s a b x = (s', OK) ->
+    0 < x /\ x <= zget (cbal s) a /\ a <> MODULE /\ b <> MODULE /\
+    if own_mod s
+    then coin_moves s s' (fun c => x * ind MODULE c - x * ind a c) /\ supply s' = supply s /\
+         tok_moves s s' (fun c => x * ind b c) /\ ltotal (tok s') = ltotal (tok s) + x
+    else coin_moves s s' (fun c => - x * ind a c) /\ supply s' = supply s - x /\
+         tok_moves s s' (fun c => x * ind b c - x * ind MODULE c) /\ ltotal (tok s') = ltotal (tok s).
+Proof. exact honest_convert_coin_both_sides. Qed.
+Print Assumptions C10_honest_convert_coin_both_sides.
+
+Theorem C10_honest_convert_erc20_both_sides :
+  forall (s : st ledger) (a b : N) (x : Z) (s' : st ledger),
+    msg_convert_erc20 HT s a b x = (s', OK) ->
+    0 < x /\ x <= zget (lbal (tok s)) a /\ a <> MODULE /\ b <> MODULE /\
+    if own_mod s
+    then coin_moves s s' (fun c => x * ind b c - x * ind MODULE c) /\ supply s' = supply s /\
+         tok_moves s s' (fun c => - x * ind a c) /\ ltotal (tok s') = ltotal (tok s) - x
+    else coin_moves s s' (fun c => x * ind b c) /\ supply s' = supply s + x /\
+         tok_moves s s' (fun c => x * ind MODULE c - x * ind a c) /\ ltotal (tok s') = ltotal (tok s).
+Proof. exact honest_convert_erc20_both_sides. Qed.
+Print Assumptions C10_honest_convert_erc20_both_sides.
 
 (** ** the transfer-to-module hook *)
 
@@ -183,14 +210,20 @@ Theorem C10_mint_witnessed_impl_refuted :
 Proof. exact mint_witnessed_impl_refuted. Qed.
 Print Assumptions C10_mint_witnessed_impl_refuted.
 
-(** second finding (class erc20:wrapper-ignores-false-transfer): the pinned MsgSend
-    wrapper reports success when the token's transfer() answers false: nothing moved *)
+(** repaired defect (fix: 1c369cb): before the fix the MsgSend wrapper reported
+    success when the token's transfer() answered false: nothing moved ... *)
 Theorem C10_wrapper_false_return_refuted :
-  let '(s', r) := msg_send cham_token impl wrap_state 1 2 7 in
+  let '(s', r) := msg_send cham_token pre_fix wrap_state 1 2 7 in
   r = OK /\ s' = wrap_state /\
   balance_of cham_token (tok s') 2 = Some 0 /\ balance_of cham_token (tok s') 1 = Some 10.
 Proof. exact wrapper_false_return_refuted. Qed.
 Print Assumptions C10_wrapper_false_return_refuted.
+
+(** ... now the same message fails without effect *)
+Theorem C10_wrapper_false_return_fixed :
+  msg_send cham_token impl wrap_state 1 2 7 = (wrap_state, EFalse).
+Proof. exact wrapper_false_return_fixed. Qed.
+Print Assumptions C10_wrapper_false_return_fixed.
 
 (** ** non-vacuity *)
 
